@@ -178,3 +178,45 @@ theorem LevelCfg.chunk_canon (L : LevelCfg σ α) : ∀ (n : Nat) (xs : List α)
       | cons c cs => rw [hcq] at ih; exact ⟨hclosed, ih⟩
 
 end DoltVerif.Prolly
+
+namespace DoltVerif.Prolly
+variable {σ α : Type}
+
+/-- clean regions are unchanged (true by construction of `regionsAt`: a region without an edit
+below it keeps its items) -/
+def CleanUnchanged (rs : List (Region α)) : Prop := ∀ r ∈ rs, r.dirty = false → r.new = r.old
+
+/-- **One level of `ApplyMutations` never loses, duplicates or reorders items** — even when the
+resulting nodes are not the canonical ones (no closedness assumption): the nodes left at the
+level, concatenated, are the pending items followed by the edited item sequence. -/
+theorem LevelCfg.incr_flatten (L : LevelCfg σ α) : ∀ (rs : List (Region α)) (st : St σ α),
+    rs ≠ [] → CleanUnchanged rs →
+    ((L.incr st rs).flatMap Out.chunks).flatten = st.cur ++ rs.flatMap (·.new)
+  | [], _, h, _ => absurd rfl h
+  | [r], st, _, hcu => by
+    by_cases hc : (st.cur.isEmpty && !r.dirty) = true
+    · simp only [Bool.and_eq_true, Bool.not_eq_true', List.isEmpty_iff] at hc
+      have hn := hcu r (by simp) hc.2
+      rw [L.incr_reused st r [] hc.1 hc.2, hc.1]
+      simp [LevelCfg.incr, Out.chunks, hn]
+    · rw [L.incr_fresh_last st r hc]
+      have := L.feed_flatten r.new st
+      simp only [List.flatMap_cons, List.flatMap_nil, Out.chunks, List.append_nil, List.flatten_append,
+        St.flush_flatten]
+      exact this
+  | r :: r' :: rs, st, _, hcu => by
+    have hcu' : CleanUnchanged (r' :: rs) := fun x hx => hcu x (by simp [hx])
+    have hflat : (r :: r' :: rs).flatMap (·.new) = r.new ++ (r' :: rs).flatMap (·.new) := List.flatMap_cons ..
+    by_cases hc : (st.cur.isEmpty && !r.dirty) = true
+    · simp only [Bool.and_eq_true, Bool.not_eq_true', List.isEmpty_iff] at hc
+      have ih := L.incr_flatten (r' :: rs) st (by simp) hcu'
+      have hn := hcu r (by simp) hc.2
+      rw [L.incr_reused st r (r' :: rs) hc.1 hc.2, List.flatMap_cons, List.flatten_append, ih, hflat, hn, hc.1]
+      simp [Out.chunks]
+    · have ih := L.incr_flatten (r' :: rs) (L.feed st r.new).2 (by simp) hcu'
+      rw [L.incr_fresh_cons st r r' rs hc, List.flatMap_cons, List.flatten_append, ih, hflat]
+      have := L.feed_flatten r.new st
+      simp only [Out.chunks, ← List.append_assoc]
+      rw [this]
+
+end DoltVerif.Prolly
